@@ -58,7 +58,10 @@ def run(ctx):
         rs = np.random.RandomState(it)
         s = (rs.randn(npol, n) + 1j * rs.randn(npol, n)) * 1e-2 + 0.02
         nz = (rs.randn(npol, n) + 1j * rs.randn(npol, n)) * 2e-3 if noisy else None
-        if it % 5 == 2:          # real-valued (float dtype) field and noise
+        dark = it % 7 in (2, 5, 6) and (it // 7) % 3 == 1       # no light at all: the dark current alone produces shot noise
+        if dark:
+            s, nz, noisy = s * 0, None, False
+        if it % 5 == 2 and not dark:          # real-valued (float dtype) field and noise
             s = np.abs(s.real) + 0.01
             nz = None if nz is None else nz.real.copy()
         x = optical_signal(s if npol == 2 else s[0], None if nz is None else (nz if npol == 2 else nz[0]))
@@ -69,6 +72,8 @@ def run(ctx):
         shown = [sel, sel.upper(), sel.title()][it % 3]
         r_, Tk, RL = rnd.choice([1.0, 0.5, 0.9]), rnd.choice([300.0, 77.0, 400.0]), rnd.choice([50.0, 1e3, 10.0])
         BW, idark, Fn = rnd.uniform(0.05, 0.45) * fs, rnd.choice([10e-9, 0.0, 1e-6]), rnd.choice([0, 3.0, 6])
+        if dark:
+            idark = rnd.choice([10e-9, 1e-6])
         np.random.seed(it)
         with tap() as t, deadline(120):
             out = PD(x, BW, r_, Tk, RL, shown, idark, Fn)
@@ -108,7 +113,7 @@ def run(ctx):
         events.append({"kind": "call", "sel": sel, "len_ok": True, "gauss": gauss, "remainder_ppt": int(min(10 ** 9, np.max(np.abs(resid)) / scale * 1e12)),
                        "offset_ppm": offset_ppm})
         meta.append(("call", sel, npol, noisy))
-        ctx.case(("call", sel, npol, noisy, it % 3, idark > 0, Fn > 0), {"PD": {"include_noise": shown, "r": r_, "T": Tk, "R_load": RL, "BW": BW, "i_dark": idark, "Fn": Fn, "n": n, "npol": npol}})
+        ctx.case(("call", sel, npol, noisy, it % 3, idark > 0, Fn > 0, dark), {"PD": {"include_noise": shown, "r": r_, "T": Tk, "R_load": RL, "BW": BW, "i_dark": idark, "Fn": Fn, "n": n, "npol": npol}})
     # ------------------------------------------------------------------ laws
     for it in range(300 if T else 24):
         setgv(it)
@@ -125,6 +130,8 @@ def run(ctx):
             # CW level on a lattice amplitude (3+4j)*1e-2: |E|^2 = 25e-4 per polarisation
             cw = optical_signal(np.full((npol, n), (3 + 4j) * 1e-2) if npol == 2 else np.full(n, (3 + 4j) * 1e-2))
             law("CW-level=r*P*Rload", PD(cw, BW, r_, 300.0, RL, **kw).signal, np.full(n, r_ * 25e-4 * npol * RL))
+            # a narrow (monitor) photodiode: BW/fs = 1e-3, 3e-4 - the DC gain of the output filter must still be one
+            law("CW-level=r*P*Rload", PD(cw, [1e-3, 3e-4][it % 2] * fs, r_, 300.0, RL, **kw).signal, np.full(n, r_ * 25e-4 * npol * RL))
             law("noise-free-selection-has-only-dark-offset", PD(cw, BW, r_, 300.0, RL, include_noise="ase-only", i_dark=2e-6).noise, np.full(n, 2e-6 * RL))
             ph = np.exp(1j * rs.uniform(0, 6.28, n))
             law("phase-rotation-invariant", PD(optical_signal(x.signal * ph), BW, r_, 300.0, RL, **kw).signal + 1, base + 1)
